@@ -206,7 +206,9 @@ func newApplyOptions(taskName string, eventChannel chan<- event.Event, serverSid
 			OutputFormat: &emptyString,
 		},
 		// Server-side apply if flag set or server-side dry run.
-		ServerSideApply: strategy.ServerDryRun() || serverSideOptions.ServerSideApply,
+		// A client dry-run must not reach the server: kubectl's server-side
+		// apply path only knows the server dry-run directive.
+		ServerSideApply: strategy.ServerDryRun() || (serverSideOptions.ServerSideApply && !strategy.ClientDryRun()),
 		ForceConflicts:  serverSideOptions.ForceConflicts,
 		FieldManager:    serverSideOptions.FieldManager,
 		DryRunStrategy:  strategy.Strategy(),
